@@ -2,6 +2,8 @@
 data-collector subclasses and projects its state to the observations the specification logs."""
 from .common import use_repo
 
+UNIT = [100.0]      # units of the specification per time unit (Abm.tla Unit)
+
 STATES = ["active", "idle"]
 
 
@@ -49,7 +51,7 @@ def build(types, dt100, stop=1000, spawn=None, default_v=2):
                             m.create_agent(p["ty"], prop_v(default_v))
 
     def make_event(p, sender):
-        d = p["d"] / 100.0
+        d = p["d"] / UNIT[0]
         if p["d"] > 0 or p.get("delayed"):
             return DelayedEvent(p["name"], sender, p["rcv"], d, data={"eid": p["eid"]})
         return Event(p["name"], sender, p["rcv"], data={"eid": p["eid"]})
@@ -64,7 +66,7 @@ def build(types, dt100, stop=1000, spawn=None, default_v=2):
             self._stepidx += 1
 
     dc = RefCollector()
-    m = RefModel(starttime=0, stoptime=stop, dt=dt100 / 100.0, name="ref",
+    m = RefModel(starttime=0, stoptime=stop, dt=dt100 / UNIT[0], name="ref",
                  scheduler=SimultaneousScheduler(), data_collector=dc)
     dc.model_ref = m
     m._calls, m._times, m._handled, m._plan, m._stepidx, m._collect_times = [], [], [], [], 0, []
